@@ -73,3 +73,14 @@ Theorem C19_fresh_key_always_found :
   forall base it, exists k, fresh (S (List.length it)) base 1 it = Some k /\ ~ In k (keys it).
 Proof. exact fresh_total. Qed.
 Print Assumptions C19_fresh_key_always_found.
+
+(* D60: iteration in key order is NOT preserved when a member's own sort attribute is assigned while it sits in the collection
+   (the collection's cached order is not invalidated): members with t_supply 200 and 150, iterate, assign 300 to the second,
+   iterate again -> still [first; second] although the default order is descending t_supply.  Replayed on the implementation
+   by the member_mutation suite on every run. *)
+Theorem C19_member_assignment_stale_order_refuted :
+  let ms := [mkM 0 "A" [200; 100; 10]; mkM 1 "B" [150; 100; 10]] in
+  map mid (iter_after_mutation ms 1 [300; 100; 10]) = [0%nat; 1%nat]
+  /\ sorted_b (keeps_front [0%nat] true) (iter_after_mutation ms 1 [300; 100; 10]) = false.
+Proof. vm_compute. split; reflexivity. Qed.
+Print Assumptions C19_member_assignment_stale_order_refuted.
